@@ -31,6 +31,7 @@ type Cfg struct {
 	NoCmpChain bool // a < b == c without parentheses
 	BigSlices  bool // slice literals crossing the 9 -> 10 boundary
 	NoMultiRet bool
+	PureConds  bool // no calls under && / ||, in else-if conditions and in case expressions (Go would short-circuit them)
 	IO         bool // input/read/write/exists and program calls (never executed by the harness: C16 only)
 }
 
@@ -67,6 +68,7 @@ type G struct {
 	nameN      int
 	pure       int // >0: no calls may be generated (switch tags, range operands)
 	topLevel   bool
+	pickLast   int
 }
 
 var namePool = []string{"a", "b", "c", "d", "e", "x", "y", "z", "n", "m", "s", "t", "u", "v", "w", "k", "p", "q", "r", "acc", "tmp", "cnt", "val", "res"}
@@ -113,7 +115,8 @@ func (g *G) chance(label string, percent int) bool {
 }
 
 // pick draws an index with the given weights.
-func (g *G) pick(label string, weights ...int) int {
+func (g *G) pick(label string, weights ...int) (res int) {
+	defer func() { g.pickLast = res }()
 	total := 0
 	for _, w := range weights {
 		total += w
@@ -584,12 +587,17 @@ func (g *G) exprMin1(ty ts.Type, depth int, minLen int) ts.Expr {
 			}
 			g.tag("cmp-bool")
 			return ts.Cmp{Op: []string{"==", "!="}[g.intn("eqop", 0, 1)], L: l, R: r}
-		case 4:
-			g.tag("and")
-			return ts.Logic{Op: "&&", L: g.expr(ts.TBool, depth-1), R: g.expr(ts.TBool, depth-1)}
-		case 5:
-			g.tag("or")
-			return ts.Logic{Op: "||", L: g.expr(ts.TBool, depth-1), R: g.expr(ts.TBool, depth-1)}
+		case 4, 5:
+			op := "&&"
+			if ty == ts.TBool && g.pickLast == 5 {
+				op = "||"
+			}
+			g.tag(map[string]string{"&&": "and", "||": "or"}[op])
+			if g.cfg.PureConds {
+				g.pure++
+				defer func() { g.pure-- }()
+			}
+			return ts.Logic{Op: op, L: g.expr(ts.TBool, depth-1), R: g.expr(ts.TBool, depth-1)}
 		case 6:
 			g.tag("not")
 			inner := g.expr(ts.TBool, depth-1)
@@ -1100,7 +1108,13 @@ func (g *G) ifStmt(depth int) []ts.Stmt {
 	s.Then = g.block(depth+1, g.bodyLen())
 	ne := g.pick("nelif", 55, 25, 12, 8)
 	for i := 0; i < ne; i++ {
+		if g.cfg.PureConds {
+			g.pure++
+		}
 		c := g.condExpr()
+		if g.cfg.PureConds {
+			g.pure--
+		}
 		s.Elifs = append(s.Elifs, ts.ElseIf{Cond: c, Body: g.block(depth+1, g.bodyLen())})
 	}
 	if ne > 0 {
@@ -1138,7 +1152,14 @@ func (g *G) switchStmt(depth int) []ts.Stmt {
 			s.Cases = append(s.Cases, ts.Case{Default: true, Body: g.block(depth+1, g.bodyLen())})
 		}
 		if i < nc {
-			s.Cases = append(s.Cases, ts.Case{E: g.expr(tagTy, g.intn("case-depth", 0, 2)), Body: g.block(depth+1, g.bodyLen())})
+			if g.cfg.PureConds {
+				g.pure++
+			}
+			ce := g.expr(tagTy, g.intn("case-depth", 0, 2))
+			if g.cfg.PureConds {
+				g.pure--
+			}
+			s.Cases = append(s.Cases, ts.Case{E: ce, Body: g.block(depth+1, g.bodyLen())})
 		}
 	}
 	g.inSwitch--
@@ -1340,7 +1361,14 @@ func (g *G) jumpStmt() []ts.Stmt {
 	s := ts.If{Cond: g.condExpr()}
 	if g.chance("jump-in-elif", 35) {
 		s.Then = g.block(g.cfg.MaxDepth, 1)
-		s.Elifs = []ts.ElseIf{{Cond: g.condExpr(), Body: []ts.Stmt{j}}}
+		if g.cfg.PureConds {
+			g.pure++
+		}
+		ec := g.condExpr()
+		if g.cfg.PureConds {
+			g.pure--
+		}
+		s.Elifs = []ts.ElseIf{{Cond: ec, Body: []ts.Stmt{j}}}
 		g.tag("jump-under-elif")
 		if g.loopDepth > 1 {
 			g.tag("jump-under-elif-in-nested-loop")
